@@ -410,7 +410,12 @@ impl<S: Space> AnyJob for Job<S> {
 }
 
 pub fn job<S: Space>(space: S, strategy: Strategy, cap_s: Option<u64>, bound: Value) -> Box<dyn AnyJob> {
-    Box::new(Job { space, strategy, cap: cap_s.map(Duration::from_secs), bound })
+    // The caps written at the call sites are sized for an idle 16-core machine (quick tier: a small
+    // multiple of the measured time).  On a loaded machine the same exploration takes several times
+    // longer; a cap is a guard against a runaway search, not a way to shorten coverage, so the quick
+    // ones (<= 120 s) are stretched.  A cap that is hit is always reported (exhaustive=false).
+    let stretch = |c: u64| if c <= 120 { c * 6 } else { c };
+    Box::new(Job { space, strategy, cap: cap_s.map(|c| Duration::from_secs(stretch(c))), bound })
 }
 
 /// Run all jobs (stop at the first violating one) or replay one recorded state.
